@@ -68,3 +68,20 @@ CHECKS["C15"] = {
     "text": "Generated modes (chains, loops, branches, self re-entry, all 16 parameter subsets) run 1-4 autonomous periods on one instance with regular, jittered, late-starting and boundary-exact tm sequences, scripted next_state()/done(), dashboard-edited durations and registered variables; which state runs and its tm / state_tm / initial_call are compared per iteration with a model written from the statement (strict on the 1/64 s grid, ties elsewhere).",
     "note": "trusts local NetworkTables SmartDashboard table semantics; model in vf/p_stateful.py",
 }
+
+_RB_NOTE = ("trusts the gate handshake of vf/simenv.py (robot thread parked inside NotifierDelay.wait() while the harness acts), the HAL "
+            "simulator's driver-station / notifier model and local NetworkTables; expected traces are generated from the statements (vf/robot_engine.py)")
+for _pid, _txt in {
+    "C05": "per-iteration callback grammar (mode code, execute of every component once in declaration order with base classes first, feedbacks, robotPeriodic; no execute in disabled/test), /robot/mode inside every periodic, and the start time of every iteration = max(T0 + k*P, end of previous body) in integer FPGA microseconds under loop bodies that overrun",
+    "C06": "setup exactly once after all constructors with injected attributes already identical to the robot's, on_enable in declaration order before init hook / mode.on_enable / execute, on_disable on leaving and again on entering disabled, nothing but on_disable after endCompetition in any mode",
+    "C07": "fault plans (1-3 faulty sites x first / k-th / every call) at every callback site: with FMS the full expected trace must still be produced and the loop keeps iterating; without FMS the trace stops at the raising callback and the very exception object escapes startCompetition()",
+    "C10": "a shadow register per will_reset_to attribute and unmarked sentinel, fed by logged assignments from every callback kind; every callback's snapshot must equal the shadow, and at the quiescent point after every enabled iteration (also ones with swallowed faults) marked attributes equal their defaults",
+    "C11": "per iteration and mode: each getter called exactly once, independent subscribers on /components/<name>/<key> and /robot/<key> hold the value just returned (or the previous one for a getter that raised under FMS), topic type string per return hint / inferred family",
+}.items():
+    CHECKS[_pid] = {
+        "engine": "robot_engine",
+        "technique": "runtime monitor: generated MagicRobot programs run through the real startCompetition() thread under the HAL simulator with a gate at NotifierDelay.wait(); trace compared with statement-derived expected trace / shadow registers / NetworkTables subscribers",
+        "ref": "DESIGN.md section 4",
+        "text": "2.4k (quick) / ~10^5 (thorough) generated robots x random driver-station histories; the monitor checks " + _txt + ".",
+        "note": _RB_NOTE,
+    }
